@@ -150,6 +150,16 @@ Theorem C19_slot0_reuse_must_be_counted :
 Proof. exact slot0_reuse_must_be_counted_full. Qed.
 Print Assumptions C19_slot0_reuse_must_be_counted.
 
+(* After any history the next operation, whatever it is, does not end in one of the driver's internal errors: the two
+   ValueErrors of _upload_segment ("Reference count not zero", "Cannot upload segment here") and numpy's IndexError in
+   free_program — the placement only hands out slots that pass _upload_segment's own checks. *)
+Require Import QV.C19.ProofsNoErr.
+Theorem C19_history_no_internal_error : forall total ops o e,
+  snd (step_with find_place (run (clear total) ops) o) = Some e ->
+  e <> RefCountNotZero /\ e <> TooLarge /\ e <> BadIndex.
+Proof. exact history_no_internal_error'. Qed.
+Print Assumptions C19_history_no_internal_error.
+
 (* non-vacuity: a history with sharing, removal, slot re-use and a forced re-upload *)
 Theorem C19_history_nonvacuous :
   let d := run (clear 100000) ex_ops in
@@ -188,6 +198,80 @@ Require Import QV.C19.Corr QV.C19.ProofsPrim.
 Theorem C19_argsort_model_meets_spec : forall a, prim_spec (PArgsort a (znat (argsort a))) = true.
 Proof. exact argsort_meets_spec. Qed.
 Print Assumptions C19_argsort_model_meets_spec.
+
+(* The same for the other 13 primitives (ProofsPrim2.v): for every input numpy accepts (hypotheses = numpy's own
+   preconditions: a boolean mask as long as the array, indices in range, as many values as True positions) the list
+   model's output satisfies the independent specification.  The code has no cumsum; its sums are np.sum(a[m] + 16)
+   (PSum16) and np.sum(caps[:first_free]) (PFirstFree gives the slice). *)
+Require Import QV.C19.ProofsPrim2.
+Theorem C19_flatnonzero_model_meets_spec : forall m, prim_spec (PFlatnonzero m (znat (flatnonzero m))) = true.
+Proof. exact flatnonzero_meets_spec. Qed.
+Print Assumptions C19_flatnonzero_model_meets_spec.
+
+Theorem C19_mask_model_meets_spec : forall m a, length m = length a -> prim_spec (PMask m a (mask m a)) = true.
+Proof. exact mask_meets_spec. Qed.
+Print Assumptions C19_mask_model_meets_spec.
+
+Theorem C19_take_model_meets_spec : forall a idx,
+  zidx_ok (length a) idx = true -> prim_spec (PTake a idx (take_idx 0 a (nats idx))) = true.
+Proof. exact take_meets_spec. Qed.
+Print Assumptions C19_take_model_meets_spec.
+
+(* np.searchsorted(data, x, side, sorter=argsort(data)): the model counts on the sorted view (which is ascending and a
+   permutation of the data), the specification on the unsorted data *)
+Theorem C19_searchsorted_model_meets_spec : forall data xs,
+  let sorted := take_idx 0 data (argsort data) in
+  Sorted.StronglySorted Z.le sorted /\
+  prim_spec (PSearch data xs (map (fun x => Z.of_nat (count_lt x sorted)) xs)
+                             (map (fun x => Z.of_nat (count_le x sorted)) xs)) = true.
+Proof. exact (fun data xs => conj (sorted_data_ascending data) (searchsorted_meets_spec data xs)). Qed.
+Print Assumptions C19_searchsorted_model_meets_spec.
+
+Theorem C19_argmax_model_meets_spec : forall m,
+  prim_spec (PArgmax m (Z.of_nat (argmax_bool m)) (Z.of_nat (argmax_bool (rev m)))) = true.
+Proof. exact argmax_meets_spec. Qed.
+Print Assumptions C19_argmax_model_meets_spec.
+
+Theorem C19_sortedpick_model_meets_spec : forall m a, length m = length a ->
+  prim_spec (PSortedPick m a (znat (take_idx 0%nat (flatnonzero m) (rev (argsort (mask m a)))))) = true.
+Proof. exact sortedpick_meets_spec. Qed.
+Print Assumptions C19_sortedpick_model_meets_spec.
+
+Theorem C19_incr_model_meets_spec : forall idx a,
+  zidx_ok (length a) idx = true -> prim_spec (PIncr idx a (incr_at (nats idx) a)) = true.
+Proof. exact incr_meets_spec. Qed.
+Print Assumptions C19_incr_model_meets_spec.
+
+(* a[idx] -= 1 with numpy's negative-index wrap: no precondition, an index out of range is the IndexError outcome *)
+Theorem C19_decrwrap_model_meets_spec : forall idx a,
+  prim_spec (PDecrWrap idx a (option_map (fun l => decr_at l a) (norm_all (length a) idx))) = true.
+Proof. exact decrwrap_meets_spec. Qed.
+Print Assumptions C19_decrwrap_model_meets_spec.
+
+Theorem C19_sum16_model_meets_spec : forall m a,
+  length m = length a -> prim_spec (PSum16 m a (zsum (map (fun l => l + 16) (mask m a)))) = true.
+Proof. exact sum16_meets_spec. Qed.
+Print Assumptions C19_sum16_model_meets_spec.
+
+Theorem C19_assignmask_model_meets_spec : forall w m v,
+  length m = length w -> length v = count_true m -> prim_spec (PAssignMask w m v (assign_mask w m v)) = true.
+Proof. exact assignmask_meets_spec. Qed.
+Print Assumptions C19_assignmask_model_meets_spec.
+
+Theorem C19_firstfree_model_meets_spec : forall r,
+  prim_spec (PFirstFree r (Z.of_nat (first_free_of r)) (firstn (first_free_of r) r)) = true.
+Proof. exact firstfree_meets_spec. Qed.
+Print Assumptions C19_firstfree_model_meets_spec.
+
+Theorem C19_setat_model_meets_spec : forall a i v,
+  0 <= i < Z.of_nat (length a) -> prim_spec (PSetAt a i v (set_nth (Z.to_nat i) v a)) = true.
+Proof. exact setat_meets_spec. Qed.
+Print Assumptions C19_setat_model_meets_spec.
+
+Theorem C19_findpositions_model_meets_spec : forall data xs,
+  prim_spec (PFindPositions data xs (find_positions data xs)) = true.
+Proof. exact findpositions_meets_spec. Qed.
+Print Assumptions C19_findpositions_model_meets_spec.
 
 (* ------------------------------------------------------------------------------------------------------------- *)
 (* REMARK — NOT PART OF PROPERTY C19.  C19 is a safety property (a refusal is always safe).  The corresponding
